@@ -1220,3 +1220,25 @@ func Size(ts ...*Term) int {
 func Render(t *Term) string { return t.String() }
 
 var _ = bits.Len64
+
+// Mentions reports whether sub occurs in t.
+func Mentions(t, sub *Term) bool {
+	seen := map[int]bool{}
+	var rec func(x *Term) bool
+	rec = func(x *Term) bool {
+		if x == sub {
+			return true
+		}
+		if seen[x.ID] {
+			return false
+		}
+		seen[x.ID] = true
+		for _, a := range x.Args {
+			if rec(a) {
+				return true
+			}
+		}
+		return false
+	}
+	return rec(t)
+}
